@@ -112,7 +112,7 @@ def interrupt_while_loading(chk):
             problems = []
             if res.code == 0:
                 problems.append("cond run exited 0")
-            if "aborted" not in text or "Traceback" in text:
+            if not implrun.abort_reported(text):
                 problems.append("the abort is not reported: %r" % text[-250:])
             if ran:
                 problems.append("the task was executed")
@@ -158,7 +158,7 @@ def interrupt_during_git_probe(chk):
             continue     # this probe is not issued by the code under test: nothing was injected
         if res.code == 0:
             problems.append("cond run exited 0")
-        if "aborted" not in text or "Traceback" in text:
+        if not implrun.abort_reported(text):
             problems.append("the abort is not reported: %r" % text[-250:])
         if ran:
             problems.append("the task was executed")
@@ -253,7 +253,7 @@ def real_interrupts(chk, n):
         if shape == 2:
             if p.returncode in (0, None):
                 problems.append("cond exited %s after the interrupt" % p.returncode)
-        elif p.returncode in (0, None) or "Traceback" in text or "aborted" not in text:
+        elif p.returncode in (0, None) or not implrun.abort_reported(text):
             problems.append("cond exited %s with output %r instead of reporting an abort" % (p.returncode, text[-300:]))
         what = ["three tasks in flight (-j3)", "the second task of a chain running", "three tasks in flight, stdout closed by its reader"][shape]
         for msg in problems:
